@@ -116,8 +116,10 @@ def drive_all(item, em=None, used=False):
             e[q] = d in (1, 2)
             e[n + q] = d in (2, 3)
         # the error comes in the array types callers use
-        ev = e if t % 4 == 0 else (e.astype(np.int64) if t % 4 == 1 else
-                                   (e.astype(bool) if t % 4 == 2 else e.astype(np.uint64)))
+        # (the choice mixes all digits of t: t % 4 alone is the letter on qubit 0)
+        dsel = sum((t // 4 ** q) % 4 for q in range(n + 1)) % 4
+        ev = e if dsel == 0 else (e.astype(np.int64) if dsel == 1 else
+                                  (e.astype(bool) if dsel == 2 else e.astype(np.uint64)))
         f = float(em.error_probability(ev, code, p))
         with np.errstate(divide='ignore'):
             # the flag as callers produce it: True, a numpy boolean, 1
